@@ -532,6 +532,12 @@ class UTPM(Ring, RawAlgorithmsMixIn):
             return UTPM.exp(UTPM.log(self)*r)
         else:
             x_data = self.data
+            if isinstance(r, (list, tuple)):
+                r = numpy.asarray(r)
+            if isinstance(r, numpy.ndarray) and r.ndim > 0:
+                # an array of exponents is broadcast against the shape of x like the operands of
+                # the other operators (never against the coefficient and direction axes)
+                x_data = (self + numpy.zeros(r.shape, dtype=x_data.dtype)).data
             if numpy.iscomplexobj(r) and not numpy.iscomplexobj(x_data):
                 # real polynomial ** complex scalar: the result is complex
                 x_data = x_data.astype(numpy.promote_types(x_data.dtype, numpy.asarray(r).dtype))
@@ -564,6 +570,9 @@ class UTPM(Ring, RawAlgorithmsMixIn):
 
         if isinstance(r, cls):
             raise NotImplementedError('r must be int or float, or use the identity x**y = exp(log(x)*y)')
+
+        if y.data.shape != x.data.shape:
+            raise NotImplementedError('reverse mode of x**r with an array r that is broadcast against x: use x + zeros(r.shape) as base')
 
         cls._pb_pow_real(ybar.data, x.data, r, y.data, out = xbar.data)
         return xbar
